@@ -22,13 +22,12 @@ structure Good (c : Ctx) (f : Feat) (h gid : Int) (as : List Area) : Prop where
 /-- shapes of a well-formed core inside a well-formed extent -/
 theorem core_cases {L : Int} {loc core : Loc} (hl : collOK L loc = true) (hc : collOK L core = true)
     (hin : locationContainsOther loc core = true)
-    (hx : (!decide (core.parts.length > 1) || decide (loc.parts.length > 1)) = true)
-    (hw : tilesRecord core = false) :
+    (hx : (!decide (core.parts.length > 1) || decide (loc.parts.length > 1)) = true) :
     (∃ p q, loc = .simple p ∧ core = .simple q ∧ p.lo ≤ q.lo ∧ q.lo < q.hi ∧ q.hi ≤ p.hi) ∨
     (∃ s e q, loc = .compound [⟨s, L, .fwd⟩, ⟨0, e, .fwd⟩] ∧ core = .simple q ∧ q.lo < q.hi ∧
       ((s ≤ q.lo ∧ q.hi ≤ L) ∨ (0 ≤ q.lo ∧ q.hi ≤ e))) ∨
     (∃ s e cs ce, loc = .compound [⟨s, L, .fwd⟩, ⟨0, e, .fwd⟩] ∧
-      core = .compound [⟨cs, L, .fwd⟩, ⟨0, ce, .fwd⟩] ∧ s ≤ cs ∧ cs < L ∧ 0 < ce ∧ ce ≤ e ∧ ce < cs) := by
+      core = .compound [⟨cs, L, .fwd⟩, ⟨0, ce, .fwd⟩] ∧ s ≤ cs ∧ cs < L ∧ 0 < ce ∧ ce ≤ e ∧ ce ≤ cs) := by
   rcases collOK_cases hl with ⟨p, rfl, hp1, hp2, hp3⟩ | ⟨s, e, rfl, he1, he2, he3⟩ <;>
   rcases collOK_cases hc with ⟨q, rfl, hq1, hq2, hq3⟩ | ⟨cs, ce, rfl, hc1, hc2, hc3⟩
   · left
@@ -47,7 +46,6 @@ theorem core_cases {L : Int} {loc core : Loc} (hl : collOK L loc = true) (hc : c
     simp only [locationContainsOther, Loc.parts, partContains, List.all_cons, List.all_nil,
       List.any_cons, List.any_nil, Bool.or_false, Bool.and_true, Bool.and_eq_true, Bool.or_eq_true,
       decide_eq_true_eq] at hin
-    simp only [tilesRecord, beq_eq_false_iff_ne, ne_eq] at hw
     refine ⟨s, e, cs, ce, rfl, rfl, ?_⟩
     omega
 
@@ -165,10 +163,9 @@ theorem good_pair {c : Ctx} {f : Feat} {h gid : Int} (a b : Area)
 
 theorem proto_core {c : Ctx} {f : Feat} (hf : featOK c f = true) (hk : f.kind = .proto) :
     collOK c.L f.loc = true ∧ collOK c.L f.core = true ∧ locationContainsOther f.loc f.core = true ∧
-    (!decide (f.core.parts.length > 1) || decide (f.loc.parts.length > 1)) = true ∧
-    tilesRecord f.core = false := by
-  simp only [featOK, Bool.and_eq_true, hk, bne_self_eq_false, Bool.false_or, Bool.not_eq_true'] at hf
+    (!decide (f.core.parts.length > 1) || decide (f.loc.parts.length > 1)) = true := by
+  simp only [featOK, Bool.and_eq_true, hk, bne_self_eq_false, Bool.false_or] at hf
   simp only [Feat.crosses] at hf
-  exact ⟨hf.1.1.1, hf.2.1.1.1, hf.2.1.2, hf.2.2, hf.2.1.1.2⟩
+  exact ⟨hf.1.1.1, hf.2.1.1, hf.2.1.2, hf.2.2⟩
 
 end ASV.Packing
